@@ -362,10 +362,10 @@ class EditRunner(G.Runner):
         k = key[0]
         if k == 'n':
             return 'n.' + hs(key[1])
-        if k == 's':
-            return 's:' + ','.join(cls.enc_atom(a) for a in key[1])
-        if k == 'd':
-            return 'd:' + ','.join('%s=%s' % (cls.enc_atom(a), cls.enc_atom(b)) for a, b in key[1])
+        if k == 's':           # a set: equal elements collapse
+            return 's:' + ','.join(cls.enc_atom(a) for a in dict.fromkeys(key[1]))
+        if k == 'd':           # a dict: a repeated key keeps its first position and last value
+            return 'd:' + ','.join('%s=%s' % (cls.enc_atom(a), cls.enc_atom(b)) for a, b in dict((a, b) for a, b in key[1]).items())
         if k == 'k':
             return 'k:%s:%s' % (cls.enc_atom(key[1]), cls.enc_atom(key[2]))
         return 'o'
@@ -379,10 +379,10 @@ class EditRunner(G.Runner):
         if k == 's':
             return set(key[1])
         if k == 'd':
-            return dict(key[1])
+            return dict((a, b) for a, b in key[1])
         if k == 'k':
             return RouteKey(key[1], pattern=key[2])
-        return key[1]
+        return OTHER_KEYS[key[1]]
 
     @staticmethod
     def key_rule(key):
@@ -546,6 +546,10 @@ def play(run, ops):
 
 EDIT_KINDS = ('A', 'X', 'XN', 'H', 'XH', 'WX')
 
+#: keys that are neither str, set nor dict (`('o', name)` in a key form)
+OTHER_KEYS = {'tuple': ('/a',), 'tuple0': (), 'list': ['/a'], 'frozenset': frozenset(['/a']), 'int': 5, 'zero': 0,
+              'none': None, 'bytes': b'/a', 'float': 1.5}
+
 
 # ---------------------------------------------------------------------------------------------
 # history generator
@@ -625,17 +629,121 @@ def gen_probes(rng, U, edits, full):
     return out
 
 
+def parse_pattern(rule):
+    """pattern string of a rule text (pure: `Route.parse_rule`), None when it does not parse"""
+    from ombott.router.radirouter import Route
+    try:
+        return Route.parse_rule(rule)[0]
+    except Exception:
+        return None
+
+
+def gen_key(rng, rules, pats):
+    """one key form for `router[key]`: mostly the accepted forms over live rules / patterns, and
+    every malformed shape"""
+    rule = rng.choice(rules) if rules and rng.random() < .85 else rng.choice(G.MALFORMED + ['', 'a', '/zz', '/'])
+    pat = rng.choice(pats) if pats and rng.random() < .8 else rng.choice(['', '/a', 'zz', 'a/\r', '\r', 'a'])
+    if rng.random() < .15 and pat:
+        pat = pat[:rng.randint(0, len(pat))]
+    r = rng.random()
+    if r < .12:
+        return ['n', rng.choice(NAMES + ['zz', ''])]
+    if r < .27:
+        return ['s', [rule]]
+    if r < .39:
+        return ['d', [['rule', rule]]]
+    if r < .49:
+        return ['k', rule, None]
+    if r < .61:
+        return ['d', [['pattern', pat]]]
+    if r < .68:
+        return ['d', [['route_pattern', pat]]]
+    if r < .78:
+        return ['k', None, pat]
+    other = rules[0] if rules else '/b'
+    return rng.choice([
+        ['s', []], ['s', [rule, other + 'x']], ['s', [None]], ['s', [5]], ['s', [0]], ['s', [rule, None]],
+        ['d', []], ['d', [['rule', rule], ['pattern', pat]]], ['d', [['pattern', pat], ['route_pattern', pat]]],
+        ['d', [['filters', None]]], ['d', [['filters', 'x']]], ['d', [['filters', 0]]], ['d', [['get_hooks', 1]]],
+        ['d', [['get_hooks', None]]], ['d', [['foo', 'x']]], ['d', [[None, 'x']]], ['d', [[3, 'x']]], ['d', [[0, rule]]],
+        ['d', [['pattern', None]]], ['d', [['pattern', 0]]], ['d', [['pattern', 7]]], ['d', [['rule', None]]],
+        ['d', [['rule', 0]]], ['d', [['rule', 3]]], ['d', [['route_pattern', None]]], ['d', [['route_pattern', 2]]],
+        ['k', None, None], ['k', '', None], ['k', rule, pat], ['k', '', pat], ['k', 0, pat], ['k', 1, None],
+        ['k', rule, 0], ['k', None, 0], ['k', None, 4], ['k', 0, None],
+    ] + [['o', k] for k in sorted(OTHER_KEYS)])
+
+
+def gen_listing_probes(rng, U, edits, full):
+    """probes of the enumeration / printing / key-form model (Drv/RouterListing.lean)"""
+    rules, pats = [], []
+    for op in edits:
+        if op[0] in ('A', 'H', 'X', 'XH') and not op[1].endswith('*') and op[1] not in rules:
+            rules.append(op[1])
+            p = parse_pattern(op[1])
+            if p is not None and p not in pats:
+                pats.append(p)
+    out = [['LI', '', rng.random() < .4]]
+    for _ in range(2 if full else 1):
+        sw = rng.choice(pats) if pats and rng.random() < .85 else rng.choice(['a', 'zz', '\r', 'a/\r/', 'ab'])
+        sw = sw[:rng.randint(0, len(sw))] if rng.random() < .7 else sw
+        out.append(['LI', sw, rng.random() < .4])
+    out.append(['LR'])
+    if full or rng.random() < .3:
+        out.append(['LS'])
+    for _ in range(rng.randint(4, 8) if full else rng.randint(1, 3)):
+        out.append(['LK', gen_key(rng, rules, pats)])
+    dom = [r for r in rules if G.in_domain(r)]
+    for _ in range(2 if full else 1):
+        if dom and rng.random() < .8:
+            out.append(['LE', rng.choice(dom) if rng.random() < .5 else U.rule(rng)])
+        if rules and rng.random() < .7:
+            out.append(['LC', rng.choice(rules), [rng.choice(['GET', 'POST', 'ANY', 'PUT'])] * rng.choice([1, 1, 2])])
+    if rng.random() < .6:
+        pat = rng.choice(pats) if pats and rng.random() < .8 else 'a/\r/\r\rb'
+        n = pat.count('\r') + rng.choice([0, 0, 0, -1, 1])
+        names = [rng.choice(['x', 'y', 'id', '', 'anon-0', 'é', 'a\rb', 'n_1']) for _ in range(max(n, 0))]
+        out.append(['LP', pat, names])
+    if rules and rng.random() < .5:
+        out.append(['LU', rng.choice(rules)])
+    return out
+
+
+def gen_wrapper_removal(rng, U, edits):
+    """`Ombott.remove_route` in its three argument forms (and mixed)"""
+    pats = [p for p in (parse_pattern(op[1]) for op in edits if op[0] == 'A') if p is not None]
+    pat = rng.choice(pats) if pats and rng.random() < .8 else rng.choice(['zz', 'a', ''])
+    if rng.random() < .25:
+        pat = pat[:rng.randint(0, len(pat))] + '*'
+    r = rng.random()
+    if r < .45:
+        return ['WX', None, None, pat]
+    if r < .6:
+        return ['WX', U.rule(rng), None, None]
+    if r < .72:
+        return ['WX', None, rng.choice(NAMES), None]
+    if r < .82:
+        return ['WX', U.rule(rng), rng.choice(NAMES), pat]
+    if r < .95:
+        return ['WX', None, rng.choice(NAMES), pat]
+    return ['WX', None, None, None]
+
+
 def gen_history(rng, max_edits=40, kind=None):
     U = Universe(rng, kind)
     n = rng.choice([3, 6, 10, 15, 20, 30, max_edits])
     ops, edits = [], []
+    listing = rng.random() < .6
     for i in range(n):
-        e = gen_edit(rng, U)
+        e = gen_wrapper_removal(rng, U, edits) if listing and rng.random() < .06 else gen_edit(rng, U)
         ops.append(e)
         edits.append(e)
         if rng.random() < .25:
             ops += gen_probes(rng, U, edits, False)
+            if listing and rng.random() < .5:
+                ops += gen_listing_probes(rng, U, edits, False)
     ops += gen_probes(rng, U, edits, True)
+    if listing:
+        ops += gen_listing_probes(rng, U, edits, True)
     paths = [op[1] for op in ops if op[0] == 'P'] + [op[2] for op in ops if op[0] == 'V']
     ops.append(['FS', sorted(set(paths))[:12], rng.choice([['GET', 'ANY'], ['POST', 'ANY']])])
     return ops, U
